@@ -73,10 +73,10 @@ theorem spWords_end {ws : List Str} (hne : ws ≠ []) (h : ∀ w ∈ ws, Clean w
   | cons w ws ih =>
     by_cases hws : ws = []
     · subst hws
-      have := endOk_append (x := [' ']) (endOk_clean (h w (by simp)))
+      have := endOk_append (x := [32]) (endOk_clean (h w (by simp)))
       simpa [spWords] using this
     · have := ih hws (fun v hv => h v (by simp [hv]))
-      have h2 := endOk_append (x := ' ' :: w) this
+      have h2 := endOk_append (x := 32 :: w) this
       simpa [spWords] using h2
 
 theorem joinSp_noEdge {ws : List Str} (hne : ws ≠ []) (h : ∀ w ∈ ws, Clean w) : NoEdgeWs (joinSp ws) := by
@@ -94,14 +94,14 @@ theorem joinSp_noEdge {ws : List Str} (hne : ws ≠ []) (h : ∀ w ∈ ws, Clean
         simpa [spWords] using endOk_clean hw
       · exact endOk_append (spWords_end hws (fun v hv => h v (by simp [hv])))
 
-theorem extentsStr_end {e : List Int} (he : e ≠ []) : ∃ l, (extentsStr e).reverse = ']' :: l := by
+theorem extentsStr_end {e : List Int} (he : e ≠ []) : ∃ l, (extentsStr e).reverse = 93 :: l := by
   induction e with
   | nil => exact absurd rfl he
   | cons n r ih =>
     by_cases hr : r = []
-    · subst hr; exact ⟨(intStr n).reverse ++ ['['], by simp [extentsStr]⟩
+    · subst hr; exact ⟨(intStr n).reverse ++ [91], by simp [extentsStr]⟩
     · obtain ⟨l, hl⟩ := ih hr
-      exact ⟨l ++ (']' :: (intStr n).reverse ++ ['[']), by simp [extentsStr, hl]⟩
+      exact ⟨l ++ (93 :: (intStr n).reverse ++ [91]), by simp [extentsStr, hl]⟩
 
 theorem declFrames_end : ∀ (fs : List Frame) (a : Bool), EndOk (declFrames fs a []) := by
   intro fs
@@ -113,11 +113,11 @@ theorem declFrames_end : ∀ (fs : List Frame) (a : Bool), EndOk (declFrames fs 
     | ptr c v r =>
       right
       obtain ⟨_, _, _, _, _, _, hedge⟩ := ptrQualWords_facts c v r
-      have hp : ∃ b l, ('*' :: (spWords (ptrQualWords c v r) ++ sep (declFrames fs false []))).reverse = b :: l ∧
+      have hp : ∃ b l, (42 :: (spWords (ptrQualWords c v r) ++ sep (declFrames fs false []))).reverse = b :: l ∧
           isWs b = false := by
         rcases ih false with h | h
         · rw [h]
-          cases hr : ('*' :: spWords (ptrQualWords c v r)).reverse with
+          cases hr : (42 :: spWords (ptrQualWords c v r)).reverse with
           | nil => simp at hr
           | cons b l => exact ⟨b, l, by simpa [sep] using hr, hedge b l hr⟩
         · have hne : (declFrames fs false []).isEmpty = false := by
@@ -125,13 +125,13 @@ theorem declFrames_end : ∀ (fs : List Frame) (a : Bool), EndOk (declFrames fs 
             cases hd : declFrames fs false [] with
             | nil => simp [hd] at hr
             | cons _ _ => rfl
-          have := endOk_append (x := '*' :: (spWords (ptrQualWords c v r) ++ [' '])) h
+          have := endOk_append (x := 42 :: (spWords (ptrQualWords c v r) ++ [32])) h
           simpa [sep, hne] using this
       simp only [declFrames]
       cases a with
       | false => simpa using hp
       | true =>
-        exact ⟨')', ('*' :: (spWords (ptrQualWords c v r) ++ sep (declFrames fs false []))).reverse ++ ['('],
+        exact ⟨41, (42 :: (spWords (ptrQualWords c v r) ++ sep (declFrames fs false []))).reverse ++ [40],
           by simp, by decide⟩
     | arr e =>
       simp only [declFrames]
@@ -139,7 +139,7 @@ theorem declFrames_end : ∀ (fs : List Frame) (a : Bool), EndOk (declFrames fs 
       · subst he; simpa [extentsStr] using ih true
       · right
         obtain ⟨l, hl⟩ := extentsStr_end he
-        exact endOk_append ⟨']', l, hl, by decide⟩
+        exact endOk_append ⟨93, l, hl, by decide⟩
 
 /-! ### the value level -/
 
@@ -148,7 +148,7 @@ theorem spWords_singleton_joinSp {ws : List Str} (h : ws ≠ []) : spWords [join
   | nil => exact absurd rfl h
   | cons w ws => simp [spWords, joinSp_cons]
 
-theorem valPrefix_eq {name : String} {ws : List Str} (hn : name.toList = joinSp ws) (hne : ws ≠ []) (c v : Bool) :
+theorem valPrefix_eq {name : Str} {ws : List Str} (hn : name = joinSp ws) (hne : ws ≠ []) (c v : Bool) :
     valPrefix name c v = joinSp (qualWords c v ++ ws) := by
   unfold valPrefix
   rw [hn]
@@ -167,8 +167,8 @@ theorem qualWords_clean (c v : Bool) : ∀ w ∈ qualWords c v, Clean w := by
     · exact clean_kVolatile
 
 /-- unpacked `wfName` -/
-theorem wfName_unpack {name : String} (h : wfName name = true) :
-    ∃ ws : List Str, name.toList = joinSp ws ∧ validWords ws = true ∧ kConst ∉ ws ∧ kVolatile ∉ ws := by
+theorem wfName_unpack {name : Str} (h : wfName name = true) :
+    ∃ ws : List Str, name = joinSp ws ∧ validWords ws = true ∧ kConst ∉ ws ∧ kVolatile ∉ ws := by
   simp only [wfName, Bool.and_eq_true, beq_iff_eq, Bool.not_eq_true', List.contains_eq_mem,
     decide_eq_false_iff_not] at h
   exact ⟨_, h.1.1.1, h.1.1.2, h.1.2, h.2⟩
@@ -202,15 +202,15 @@ theorem valQuals_words {ws : List Str} (hc : kConst ∉ ws) (hv : kVolatile ∉ 
   unfold valQuals
   rw [if_neg hcnt1, hf, hcc, hcv]
 
-theorem mem_joinSp_plain {ws : List Str} (h : ∀ w ∈ ws, Clean w) {c : Char} (hc : c ∈ joinSp ws) :
-    c = ' ' ∨ plainChar c = true := by
+theorem mem_joinSp_plain {ws : List Str} (h : ∀ w ∈ ws, Clean w) {c : Ch} (hc : c ∈ joinSp ws) :
+    c = 32 ∨ plainChar c = true := by
   rcases mem_joinSp hc with h1 | ⟨w, hw, hcw⟩
   · exact Or.inl h1
   · exact Or.inr ((h w hw).2 c hcw)
 
 theorem joinSp_goodL {ws : List Str} (hne : ws ≠ []) (h : ∀ w ∈ ws, Clean w) :
-    GoodL (joinSp ws) ∧ '*' ∉ joinSp ws := by
-  have key : ∀ c, c ≠ ' ' → plainChar c = false → c ∉ joinSp ws := by
+    GoodL (joinSp ws) ∧ 42 ∉ joinSp ws := by
+  have key : ∀ c, c ≠ 32 → plainChar c = false → c ∉ joinSp ws := by
     intro c h1 h2 hc
     rcases mem_joinSp_plain h hc with h3 | h3
     · exact h1 h3
@@ -219,7 +219,7 @@ theorem joinSp_goodL {ws : List Str} (hne : ws ≠ []) (h : ∀ w ∈ ws, Clean 
     key _ (by decide) (by decide)⟩, joinSp_noEdge hne h⟩, key _ (by decide) (by decide)⟩
 
 /-- the level of the value type: qualifiers and name parse back -/
-theorem parsePtr_valPrefix {name : String} (h : wfName name = true) (c v : Bool) :
+theorem parsePtr_valPrefix {name : Str} (h : wfName name = true) (c v : Bool) :
     GoodL (valPrefix name c v) ∧ parsePtr (valPrefix name c v) none = some (.value name c v) := by
   obtain ⟨ws, hn, hvalid, hc, hv⟩ := wfName_unpack h
   obtain ⟨hne, hclean⟩ := validWords_clean hvalid
@@ -234,7 +234,7 @@ theorem parsePtr_valPrefix {name : String} (h : wfName name = true) (c v : Bool)
   rw [valPrefix_eq hn hne c v]
   obtain ⟨hg, hstar⟩ := joinSp_goodL hne' hall
   refine ⟨hg, ?_⟩
-  have hname : String.ofList (joinSp ws) = name := by rw [← hn, String.ofList_toList]
+  have hname : joinSp ws = name := hn.symm
   unfold parsePtr
   simp only [parsePtrAux, ne_special_of_no_paren hg.noParen.1, if_false, splitLast_none hstar,
     Option.isSome_none, Bool.false_eq_true, splitWs_joinSp _ hall, valQuals_words hc hv, hvalid, if_true, hname]
@@ -253,10 +253,10 @@ theorem strip_decl {L : Str} (hL : NoEdgeWs L) (fs : List Frame) :
       cases hd : declFrames fs false [] with
       | nil => simp [hd] at hr
       | cons _ _ => rfl
-    have := endOk_append (x := a :: l ++ [' ']) h
+    have := endOk_append (x := a :: l ++ [32]) h
     simpa [sep, hne] using this
 
-theorem roundtrip_frames {name : String} (h : wfName name = true) (c v : Bool) (fs : List Frame)
+theorem roundtrip_frames {name : Str} (h : wfName name = true) (c v : Bool) (fs : List Frame)
     (hok : okFrames false fs = true) :
     parseType (decl (build (.value name c v) fs)) = some (build (.value name c v) fs) := by
   obtain ⟨hg, hp⟩ := parsePtr_valPrefix h c v
